@@ -586,6 +586,14 @@ static void ref_fold(conf_t *acc, const conf_t *c) {
 		else if (v > acc->v[f]) acc->v[f] = v;
 	}
 }
+/* the same defect shows in thousands of multisets: list the first few per signature and process, count the rest */
+static void conf_fail(const char *sig, const char *msg) {
+	static struct { char sig[64]; int n; } seen_sig[32];
+	int i;
+	for (i = 0; i < 32 && seen_sig[i].sig[0] && strcmp(seen_sig[i].sig, sig) != 0; i++) {}
+	if (i < 32) { if (!seen_sig[i].sig[0]) snprintf(seen_sig[i].sig, sizeof seen_sig[i].sig, "%s", sig); if (seen_sig[i].n++ >= 6 && !vf_replaying()) { vf_count("conf_violations_not_listed", 1); return; } }
+	vf_fail(sig, "%s", msg);
+}
 static void conf_clear(conf_t *c) { int f; for (f = 0; f < NF; f++) c->v[f] = -1; }
 
 typedef struct {
@@ -752,9 +760,9 @@ static void b_sequence(int kind, int nE, int mode, int n, const conf_t *seq, con
 			if (B.view.v[f] != exp.v[f]) {
 				char sig[64];
 				snprintf(sig, sizeof sig, "conf-fold:%s", FNAME[f]);
-				if (!bad[f]) vf_fail(sig, "%s: consolidated %s delivered %s is %lld after push %d, the fold over the in-range values is %lld (-1 = absent) [%s service, %d endpoints, delivery by %s%s:%s; delivered %s expected %s]",
+				if (!bad[f]) { char msg[2400]; snprintf(msg, sizeof msg, "%s: consolidated %s delivered %s is %lld after push %d, the fold over the in-range values is %lld (-1 = absent) [%s service, %d endpoints, delivery by %s%s:%s; delivered %s expected %s]",
 				                    FNAME[f], FNAME[f], B.ndeliv ? (mode == 0 ? "to the callback" : "in the handle") : "(nothing delivered)", (long long)B.view.v[f], j + 1, (long long)exp.v[f],
-				                    kind == RP_AGGR ? "signing" : "extending", nE, mode == 0 ? "callback" : "handle", mode == 2 ? ", all pushes before the first run" : "", desc, conf_str(&B.view, kind), conf_str(&exp, kind));
+				                    kind == RP_AGGR ? "signing" : "extending", nE, mode == 0 ? "callback" : "handle", mode == 2 ? ", all pushes before the first run" : "", desc, conf_str(&B.view, kind), conf_str(&exp, kind)); conf_fail(sig, msg); }
 				bad[f] = 1;
 			}
 		}
@@ -802,7 +810,7 @@ static void b_multiset(int kind, int nE, int n, const conf_t *cfg, const int *ep
 			else for (f = 0; f < NF; f++) if (kind_has(kind, f) && fin.v[f] != ref_final.v[f]) {
 				char sig[64];
 				snprintf(sig, sizeof sig, "conf-order-dependent:%s", FNAME[f]);
-				vf_fail(sig, "%s: final consolidated %s depends on the order in which the same configurations arrive: order %s gives %lld, order %s gives %lld [%s, mode %d, %d endpoints]", FNAME[f], FNAME[f], first_order, (long long)ref_final.v[f], order, (long long)fin.v[f], label, mode, nE);
+				{ char msg[1200]; snprintf(msg, sizeof msg, "%s: final consolidated %s depends on the order in which the same configurations arrive: order %s gives %lld, order %s gives %lld [%s, mode %d, %d endpoints]", FNAME[f], FNAME[f], first_order, (long long)ref_final.v[f], order, (long long)fin.v[f], label, mode, nE); conf_fail(sig, msg); }
 				bad[f] |= 2;
 			}
 		} while (next_perm(p, n));
